@@ -423,14 +423,17 @@ def motion(sweep, P):
     """Rigid motion (R, t) from a sweep spec and the parameter values."""
     k = sweep["kind"]
     if k == "T1":
-        return (IDENT[0], ADD(sweep.get("o", [0.0, 0.0, 0.0]), SCALE(P["t"], sweep["u"])))
+        return (sweep.get("R", IDENT[0]), ADD(sweep.get("o", [0.0, 0.0, 0.0]), SCALE(P["t"], sweep["u"])))
     if k == "T2":
-        return (IDENT[0], ADD(sweep.get("o", [0.0, 0.0, 0.0]),
+        return (sweep.get("R", IDENT[0]), ADD(sweep.get("o", [0.0, 0.0, 0.0]),
                               ADD(SCALE(P["t"], sweep["u"]), SCALE(P["s"], sweep["v"]))))
     if k == "T3":
         return (IDENT[0], [P["t"], P["s"], P["r"]])
     if k == "R1":
-        c, s = half_angle(P["t"])
+        if "c" in P:
+            c, s = P["c"], P["s"]
+        else:
+            c, s = half_angle(P["t"])
         R = rot_about_axis(sweep["axis"], c, s)
         ctr = sweep.get("center", [0.0, 0.0, 0.0])
         # x -> R (x - ctr) + ctr + o
@@ -450,6 +453,8 @@ def motion(sweep, P):
 def sweep_params(sweep, T=3.0):
     k = sweep["kind"]
     T = sweep.get("range", T)
+    if k == "R1" and sweep.get("cs"):
+        return [("c", -1.0, 1.0), ("s", -1.0, 1.0)]
     if k in ("T1", "R1"):
         return [("t", -T, T)]
     if k in ("T2", "R1T1"):
@@ -457,3 +462,16 @@ def sweep_params(sweep, T=3.0):
     if k == "T3":
         return [("t", -T, T), ("s", -T, T), ("r", -T, T)]
     return [("t", 0.0, 1.0)] if k == "fixed" else []
+
+
+def sweep_assumptions(sweep, P):
+    if sweep["kind"] == "R1" and sweep.get("cs"):
+        return [P["c"] * P["c"] + P["s"] * P["s"] == 1.0]
+    return []
+
+
+# rotations with exactly representable-ish rational entries (rounded once to float64; the
+# model uses the rounded values exactly, orthonormal to 1e-16)
+RZ345 = [[0.6, -0.8, 0.0], [0.8, 0.6, 0.0], [0.0, 0.0, 1.0]]
+RX51213 = [[1.0, 0.0, 0.0], [0.0, 5.0 / 13.0, -12.0 / 13.0], [0.0, 12.0 / 13.0, 5.0 / 13.0]]
+RGEN = [[sum(RX51213[i][k] * RZ345[k][j] for k in range(3)) for j in range(3)] for i in range(3)]
